@@ -3,6 +3,8 @@ import M3d.Lemmas.CollideBall
 import M3d.Lemmas.CollideXf
 import M3d.Lemmas.CollideParity
 import M3d.Lemmas.CollideCyl
+import M3d.Lemmas.CollideCylAxis
+import M3d.Lemmas.CollideCylParity
 import M3d.Lemmas.CollideCone
 import M3d.Lemmas.CollideJordan
 import M3d.Lemmas.CollideJordan2
@@ -301,6 +303,125 @@ theorem cylinder_hits_on_surface {sqrtF : K → K} (hs : SqrtOK sqrtF) (eps : K)
   · intro P
     exact radialVec_orth p1 _ P (V3.normalize_unit hs _ hax)
 
+/-- **`cylinder_reports_iff`** — *the collisions `Cylinder.RayCollisions` reports are exactly the points where the ray
+meets the surface*: a parameter `t` is handed to the callback **iff** `t ≥ 0` and the ray point `o + t·d` lies on the
+lateral surface between the caps or on one of the two cap discs — nothing is invented (`cylinder_hits_on_surface`) and
+nothing is missed.  For a ray neither parallel nor orthogonal to the axis, accepted by the near-parallel test of `castPlane`
+(`|d·v| ≥ eps·|d|`) and not tangent to the infinite cylinder (`disc ≠ 0`; a tangent ray is reported no lateral collision).
+The rays along the axis are `cylinder_axis_rays` (same statement). -/
+theorem cylinder_reports_iff {sqrtF : K → K} (hs : SqrtOK sqrtF) (eps : K) (p1 p2 : V3 K) (r : K) (o d : V3 K)
+    (hax : (p2.sub p1).dot (p2.sub p1) ≠ 0) (hr : 0 < r)
+    (hA : cylA ((p2.sub p1).normalize sqrtF) d ≠ 0)
+    (hdv : d.dot ((p2.sub p1).normalize sqrtF) ≠ 0)
+    (hacc : ¬ (|d.dot ((p2.sub p1).normalize sqrtF)| < eps * d.norm sqrtF))
+    (hdisc : cylDisc ((p2.sub p1).normalize sqrtF) (o.sub p1) d r ≠ 0) (t : K) :
+    (∃ h ∈ ((cylCollider sqrtF eps p1 p2 r).ray (o, d) true).2, h.t = t) ↔
+      0 ≤ t ∧ OnCylSurface p1 ((p2.sub p1).normalize sqrtF) ((p2.sub p1).norm sqrtF) r (o.along d t) :=
+  cylHits_iff_surface hs eps p1 p2 r o d hax hr hA hdv hacc hdisc t
+
+/-- **`cylinder_axis_rays`** — `Cylinder.RayCollisions` / `FirstRayCollision` for a ray that runs *exactly along the
+axis*, `d = v·k` with `v = (P2-P1).Normalize()` and any `k ≠ 0` (either sense, any length): the case
+`cylinder_hits_on_surface` excludes (`a = 0`).  There the quadratic of the lateral surface degenerates — `v2 = 0`, so
+`a = b = 0` and the discriminant is `0` wherever the ray is — and says nothing about the ray; the collisions are the
+crossings of the two cap discs:
+* the calls made to the callback are exactly the list `cylAxisSpec` (what the `cylx` correspondence kind prints): nothing
+  if the ray runs further than `r` from the axis, else the base disc at `(0 - z₀)/k` with normal `-v` and the top disc at
+  `(|P2-P1| - z₀)/k` with normal `v`, each unless negative — `castCircle` never rejects such a ray as near-parallel
+  (`eps ≤ 1`);
+* every reported collision has `t ≥ 0`, a unit normal, and lies on the base disc with the normal `-v` or on the top disc
+  with the normal `v`;
+* for a ray that does not run inside the lateral surface itself (`dist(o, axis) ≠ r`): a parameter is reported **iff**
+  `t ≥ 0` and the ray point lies on the surface of the cylinder — nothing is missed;
+* the count (with or without callback) is odd **iff** `Cylinder.Contains(origin)`, for an origin not on the surface;
+* `FirstRayCollision` reports a collision **iff** the ray meets the surface (its parameter is minimal by `first_is_min`). -/
+theorem cylinder_axis_rays {sqrtF : K → K} (hs : SqrtOK sqrtF) (eps : K) (heps : eps ≤ 1) (p1 p2 : V3 K) (r : K)
+    (o : V3 K) (k : K) (hax : (p2.sub p1).dot (p2.sub p1) ≠ 0) (hr : 0 < r) (hk : k ≠ 0) :
+    let v := (p2.sub p1).normalize sqrtF
+    let L := (p2.sub p1).norm sqrtF
+    let d := v.scale k
+    cylHits sqrtF eps p1 p2 r o d = cylAxisSpec p1 v L r o k ∧
+    (∀ h ∈ cylHits sqrtF eps p1 p2 r o d, 0 ≤ h.t ∧ h.n.dot h.n = 1 ∧ radialSq p1 v (o.along d h.t) ≤ r * r ∧
+      ((axialZ p1 v (o.along d h.t) = 0 ∧ h.n = v.scale (-1)) ∨ (axialZ p1 v (o.along d h.t) = L ∧ h.n = v))) ∧
+    (radialSq p1 v o ≠ r * r → ∀ t, (∃ h ∈ cylHits sqrtF eps p1 p2 r o d, h.t = t) ↔
+      0 ≤ t ∧ OnCylSurface p1 v L r (o.along d t)) ∧
+    (radialSq p1 v o ≠ r * r → axialZ p1 v o ≠ 0 → axialZ p1 v o ≠ L →
+      ∀ cb, (((cylCollider sqrtF eps p1 p2 r).ray (o, d) cb).1 % 2 = 1 ↔ cylContains sqrtF p1 p2 r o = true)) ∧
+    (radialSq p1 v o ≠ r * r → (((cylCollider sqrtF eps p1 p2 r).first (o, d)).isSome = true ↔
+      ∃ t, 0 ≤ t ∧ OnCylSurface p1 v L r (o.along d t))) := by
+  intro v L d
+  have hvu : v.dot v = 1 := V3.normalize_unit hs _ hax
+  have heq : cylHits sqrtF eps p1 p2 r o d = cylAxisSpec p1 v L r o k :=
+    cylHits_axis hs eps heps p1 p2 r o k hax hr.le hk
+  have hLpos : 0 < L := by
+    obtain ⟨hn0, hn1⟩ := hs ((p2.sub p1).x * (p2.sub p1).x + (p2.sub p1).y * (p2.sub p1).y +
+      (p2.sub p1).z * (p2.sub p1).z) (sumsq3_nonneg _ _ _)
+    refine lt_of_le_of_ne hn0 (fun h0 => hax ?_)
+    have : L * L = (p2.sub p1).dot (p2.sub p1) := hn1
+    rw [← this, ← h0]; ring
+  refine ⟨heq, ?_, ?_, ?_, ?_⟩
+  · intro h hm
+    rw [heq] at hm
+    obtain ⟨h1, h2, h3⟩ := cylAxisSpec_normals p1 v L r o k hvu hk h hm
+    refine ⟨h1, ?_, h2, h3⟩
+    rcases h3 with ⟨_, hn⟩ | ⟨_, hn⟩
+    · rw [hn]
+      have : (v.scale (-1)).dot (v.scale (-1)) = v.dot v := by simp only [V3.dot, V3.scale]; ring
+      rw [this, hvu]
+    · rw [hn, hvu]
+  · intro hgen t
+    rw [heq]
+    exact cylAxisSpec_mem_iff p1 v L r o k hvu hk hgen t
+  · intro hgen hz0 hzL cb
+    have hcount : ((cylCollider sqrtF eps p1 p2 r).ray (o, d) cb).1 = (cylAxisSpec p1 v L r o k).length := by
+      show (cylHits sqrtF eps p1 p2 r o d).length = _
+      rw [heq]
+    rw [hcount, cylAxisSpec_parity p1 v L r o k hk hLpos hgen hz0 hzL, cylContains_iff hs p1 p2 r hr.le o hax]
+    unfold InCylOpen InCylClosed
+    constructor
+    · rintro ⟨a, b, c⟩; exact ⟨a.le, b.le, c.le⟩
+    · rintro ⟨a, b, c⟩
+      exact ⟨lt_of_le_of_ne a (Ne.symm hz0), lt_of_le_of_ne b hzL, lt_of_le_of_ne c hgen⟩
+  · intro hgen
+    have hfirst : (cylCollider sqrtF eps p1 p2 r).first (o, d) =
+        minFirst Hit.t (cylHits sqrtF eps p1 p2 r o d) none := rfl
+    rw [hfirst, minFirst_none_isSome]
+    constructor
+    · intro hne
+      obtain ⟨h, hm⟩ := List.exists_mem_of_ne_nil _ hne
+      exact ⟨h.t, ((by rw [heq]; exact cylAxisSpec_mem_iff p1 v L r o k hvu hk hgen h.t :
+        (∃ h' ∈ cylHits sqrtF eps p1 p2 r o d, h'.t = h.t) ↔ _).1 ⟨h, hm, rfl⟩)⟩
+    · rintro ⟨t, ht⟩
+      obtain ⟨h, hm, _⟩ := ((by rw [heq]; exact cylAxisSpec_mem_iff p1 v L r o k hvu hk hgen t :
+        (∃ h' ∈ cylHits sqrtF eps p1 p2 r o d, h'.t = t) ↔ _).2 ht)
+      exact List.ne_nil_of_mem hm
+
+/-- non-vacuity: the upright cylinder `(0,0,0)–(0,0,2)`, radius 1.  Looking straight down from `(1/4, 0, 3)` with the
+direction `(0,0,-4)`: top disc at `1/4` (normal `+z`), base disc at `3/4` (normal `-z`), in the order base, top; from
+inside, `(1/4, 0, 1)`, the same direction: the base disc only (odd, `Contains`); beside the cylinder: nothing.
+(`sqrtF` exact on the squares that occur.) -/
+example :
+    let sq : ℚ → ℚ := fun x => if x = 4 then 2 else if x = 16 then 4 else if x = 1/16 then 1/4 else x
+    (cylHits sq (1/100000000) ⟨0, 0, 0⟩ ⟨0, 0, 2⟩ 1 ⟨1/4, 0, 3⟩ ⟨0, 0, -4⟩).map (fun h => (h.t, h.n.z)) =
+      [(3/4, -1), (1/4, 1)] ∧
+    (cylHits sq (1/100000000) ⟨0, 0, 0⟩ ⟨0, 0, 2⟩ 1 ⟨1/4, 0, 1⟩ ⟨0, 0, -4⟩).map (fun h => (h.t, h.n.z)) = [(1/4, -1)] ∧
+    (cylAxisSpec (⟨0, 0, 0⟩ : V3 ℚ) ⟨0, 0, 1⟩ 2 1 ⟨1/4, 0, 1⟩ (-4)).map (fun h => (h.t, h.n.z)) = [(1/4, -1)] ∧
+    cylContains sq ⟨0, 0, 0⟩ ⟨0, 0, 2⟩ 1 ⟨1/4, 0, 1⟩ = true ∧
+    cylHits sq (1/100000000) ⟨0, 0, 0⟩ ⟨0, 0, 2⟩ 1 ⟨5/4, 0, 1⟩ ⟨0, 0, -4⟩ = [] := by
+  refine ⟨?_, ?_, ?_, ?_, ?_⟩ <;> decide +kernel
+
+/-- **`cylinder_contains_iff`** — `Cylinder.Contains(p)` (axial coordinate measured from `P2` along
+`(P1-P2).Normalize()`, rejected if `< 0` or `> |P1-P2|`, then `projection.Dist(p) <= Radius`) is true **iff** `p` lies in
+the closed cylinder: `0 ≤ z ≤ |P2-P1|` for the axial coordinate `z = (p-P1)·v` and squared distance from the axis
+`≤ r²`.  This is the "inside" the parity statements (`cylinder_axis_rays`, `parity_inside_cylinder`) compare the count
+with, and what the `I` field of the `cylx` correspondence kind prints. -/
+theorem cylinder_contains_iff {sqrtF : K → K} (hs : SqrtOK sqrtF) (p1 p2 : V3 K) (r : K) (hr : 0 ≤ r) (p : V3 K)
+    (hax : (p2.sub p1).dot (p2.sub p1) ≠ 0) :
+    cylContains sqrtF p1 p2 r p = true ↔
+      0 ≤ axialZ p1 ((p2.sub p1).normalize sqrtF) p ∧
+      axialZ p1 ((p2.sub p1).normalize sqrtF) p ≤ (p2.sub p1).norm sqrtF ∧
+      radialSq p1 ((p2.sub p1).normalize sqrtF) p ≤ r * r :=
+  cylContains_iff hs p1 p2 r hr p hax
+
 /-- **`capsule_hits_on_surface`** (`Capsule.RayCollisions`): the collisions it reports are candidates
 (`capsule_phantom_contract`: a minimum and a maximum of them), and every candidate — a collision with an end
 sphere kept on its outer half, or with the lateral surface — has `t ≥ 0`, a unit normal, and lies on the
@@ -369,9 +490,10 @@ iff the origin is in the box.
 (`_partial`: one convex cell.  The general statements are `parity_inside_convex` — every convex solid given by
 half-spaces —, `parity_inside_convex_mesh` — closed convex meshes on the model's hit list — and
 `parity_direction_independent` / `parity_inside_closed_mesh` — arbitrary closed triangle meshes: the parity does
-not depend on the direction and agrees with `ColliderContains`.  Tori, cones, capsules, cylinders, profiles and
-transformed shapes are checked on the real code against an independent winding-number / analytic containment
-computation by the harness, `c07:parity-vs-contains/*`.) -/
+not depend on the direction and agrees with `ColliderContains` —, and for the `Cylinder` primitive
+`parity_inside_cylinder` + `cylinder_axis_rays`.  Tori, cones, capsules, profiles and transformed shapes are checked on
+the real code against an independent winding-number / analytic containment computation by the harness,
+`c07:parity-vs-contains/*`.) -/
 theorem parity_inside_box_partial (lo hi o d : V3 K) (hbox : lo.x ≤ hi.x ∧ lo.y ≤ hi.y ∧ lo.z ≤ hi.z) (mn mx : K)
     (h : slabLoop (axes3 o d lo hi) none none = (some mn, some mx)) (hgen : mn ≠ 0) :
     (rectTs lo hi o d).length % 2 = 1 ↔ InBox lo hi o :=
@@ -383,6 +505,62 @@ theorem parity_inside_sphere_partial {sqrtF : K → K} (hs : SqrtOK sqrtF) (cent
     (o d : V3 K) (hd : d.dot d ≠ 0) (hgen : o.distSq center ≠ radius * radius) :
     (sphereHits sqrtF center radius o d).length % 2 = 1 ↔ o.distSq center < radius * radius :=
   parity_sphere hs center radius o d hd hgen
+
+/-- **`parity_inside_cylinder`** — *for a `Cylinder` the reported number of collisions is odd exactly when the ray starts
+inside*, for a ray not parallel to the axis (`a ≠ 0`; the parallel rays are `cylinder_axis_rays`) whose origin is not on
+the surface, in the two cases
+* **oblique** (`d·v ≠ 0`), accepted by the near-parallel test of `castPlane` (`|d·v| ≥ eps·|d|`) and not through the rim of
+  a cap (the points where the ray crosses the two cap planes are not at distance `r` from the axis);
+* **exactly orthogonal to the axis** (`d·v = 0`, e.g. looking at an upright cylinder horizontally; `eps > 0`): the caps
+  are never hit, the two roots of the lateral quadratic are reported iff the (constant) axial coordinate is in
+  `[0, |P2-P1|)`.
+"Inside" is `Cylinder.Contains(origin)` (`cylinder_contains_iff`: the closed solid); the count is the one returned with
+or without a callback.  Tangent rays are included (they are reported nothing).  Proof: the solid is convex — the
+parameters inside are the intersection of the interval between the two roots of the lateral quadratic and the interval
+between the two cap planes; `Cylinder.RayCollisions` reports a root iff it lies between the cap planes
+(`0 ≤ z < |P2-P1|`) and a cap crossing iff it lies between the roots (`dist ≤ r`), each iff `≥ 0`: the end points of the
+intersection (`interval_parity`).  Not covered: the band `0 < |d·v| < eps·|d|` (documented `1e-8` rejection of the caps),
+rays through a rim, origins on the surface. -/
+theorem parity_inside_cylinder {sqrtF : K → K} (hs : SqrtOK sqrtF) (eps : K) (p1 p2 : V3 K) (r : K) (o d : V3 K)
+    (hax : (p2.sub p1).dot (p2.sub p1) ≠ 0) (hr : 0 < r)
+    (hA : cylA ((p2.sub p1).normalize sqrtF) d ≠ 0)
+    (hsurf : ¬ OnCylSurface p1 ((p2.sub p1).normalize sqrtF) ((p2.sub p1).norm sqrtF) r o) :
+    (d.dot ((p2.sub p1).normalize sqrtF) ≠ 0 →
+      ¬ (|d.dot ((p2.sub p1).normalize sqrtF)| < eps * d.norm sqrtF) →
+      radialSq p1 ((p2.sub p1).normalize sqrtF)
+        (o.along d ((0 - axialZ p1 ((p2.sub p1).normalize sqrtF) o) / d.dot ((p2.sub p1).normalize sqrtF))) ≠ r * r →
+      radialSq p1 ((p2.sub p1).normalize sqrtF)
+        (o.along d (((p2.sub p1).norm sqrtF - axialZ p1 ((p2.sub p1).normalize sqrtF) o) /
+          d.dot ((p2.sub p1).normalize sqrtF))) ≠ r * r →
+      ∀ cb, ((cylCollider sqrtF eps p1 p2 r).ray (o, d) cb).1 % 2 = 1 ↔ cylContains sqrtF p1 p2 r o = true) ∧
+    (d.dot ((p2.sub p1).normalize sqrtF) = 0 → 0 < eps →
+      ∀ cb, ((cylCollider sqrtF eps p1 p2 r).ray (o, d) cb).1 % 2 = 1 ↔ cylContains sqrtF p1 p2 r o = true) := by
+  have hcount : ∀ cb, ((cylCollider sqrtF eps p1 p2 r).ray (o, d) cb).1 = (cylHits sqrtF eps p1 p2 r o d).length :=
+    fun _ => rfl
+  constructor
+  · intro hdv hacc hrim1 hrim2 cb
+    rw [hcount, cylHits_parity hs eps p1 p2 r o d hax hr hA hdv hacc hrim1 hrim2 hsurf,
+      cylContains_iff hs p1 p2 r hr.le o hax]
+    exact inCyl_open_iff_closed _ _ _ _ _ hsurf
+  · intro hdv heps cb
+    rw [hcount, cylHits_parity_orth hs eps heps p1 p2 r o d hax hr hA hdv hsurf,
+      cylContains_iff hs p1 p2 r hr.le o hax]
+    exact inCyl_open_iff_closed _ _ _ _ _ hsurf
+
+/-- non-vacuity: the upright cylinder `(0,0,0)–(0,0,2)`, radius 1, direction `(4,0,1)`: from `(-2,0,1/2)` outside the
+ray enters and leaves through the lateral surface (`t = 1/4, 3/4`, the top plane is crossed outside the disc): even; from
+`(0,0,1/2)` on the axis inside: one collision at `1/4`: odd, and `Contains`; the horizontal ray from `(-2,0,1/2)` along
+`(4,0,0)`: `1/4, 3/4`, from `(0,0,1/2)`: `1/4`; the horizontal ray above the top: nothing. -/
+example :
+    let sq : ℚ → ℚ := fun x => if x = 4 then 2 else if x = 64 then 8 else if x = 16 then 4 else x
+    (cylHits sq (1/100000000) ⟨0, 0, 0⟩ ⟨0, 0, 2⟩ 1 ⟨-2, 0, 1/2⟩ ⟨4, 0, 0⟩).map Hit.t = [1/4, 3/4] ∧
+    (cylHits sq (1/100000000) ⟨0, 0, 0⟩ ⟨0, 0, 2⟩ 1 ⟨0, 0, 1/2⟩ ⟨4, 0, 0⟩).map Hit.t = [1/4] ∧
+    (cylHits sq (1/100000000) ⟨0, 0, 0⟩ ⟨0, 0, 2⟩ 1 ⟨-2, 0, 5/2⟩ ⟨4, 0, 0⟩).map Hit.t = [] ∧
+    (cylHits sq (1/100000000) ⟨0, 0, 0⟩ ⟨0, 0, 2⟩ 1 ⟨-2, 0, 1/2⟩ ⟨4, 0, 1⟩).map Hit.t = [1/4, 3/4] ∧
+    cylContains sq ⟨0, 0, 0⟩ ⟨0, 0, 2⟩ 1 ⟨-2, 0, 1/2⟩ = false ∧
+    (cylHits sq (1/100000000) ⟨0, 0, 0⟩ ⟨0, 0, 2⟩ 1 ⟨0, 0, 1/2⟩ ⟨4, 0, 1⟩).map Hit.t = [1/4] ∧
+    cylContains sq ⟨0, 0, 0⟩ ⟨0, 0, 2⟩ 1 ⟨0, 0, 1/2⟩ = true := by
+  refine ⟨?_, ?_, ?_, ?_, ?_, ?_, ?_⟩ <;> decide +kernel
 
 /-- **`parity_inside_convex`** — `parity_inside` for **every convex solid given as an intersection of
 half-spaces** `n·x ≤ b` (boxes, prisms, convex polytopes, convex meshes).  If a collider's reported parameters
